@@ -268,7 +268,7 @@ def fails_robustly(member: dict, J: Any, doc: dict, depth: int = 0) -> bool:
         return False  # nullable => generated as a union with None, whose unconstructed member is a cast fallback: never raises
     if k == "model":
         if not isinstance(J, dict):
-            return J not in ([], "", ())  # dict([]) == {}: may succeed
+            return _dict_ctor_fails(J)  # from_dict starts with dict(src)
         props, req, addl = model_properties(member, doc)
         if not req <= set(J):
             return True
@@ -310,6 +310,18 @@ def fails_robustly(member: dict, J: Any, doc: dict, depth: int = 0) -> bool:
         ms = union_members(s)
         return bool(ms) and all(_guard_rejects(m, J, doc) or fails_robustly(m, J, doc, depth + 1) for m in ms) and all(_constructs(m, doc) for m in ms)
     return False  # plain kinds are cast; arrays: not judged
+
+
+def _dict_ctor_fails(J: Any) -> bool:
+    """Does dict(J) certainly raise?  It does not for [] / "" / (), nor for a sequence whose elements all have exactly two
+    items: dict([{"a": 1, "b": 2}]) == {"a": "b"} (seen: a one-element list holding a two-key object was 'decoded')."""
+    if isinstance(J, (bool, int, float)):
+        return True
+    if isinstance(J, str):
+        return len(J) > 0
+    if isinstance(J, (list, tuple)):
+        return any(not (isinstance(x, (str, list, tuple, dict)) and len(x) == 2) for x in J)
+    return False
 
 
 def _guard_rejects(member: dict, J: Any, doc: dict) -> bool:
